@@ -9,8 +9,9 @@ from vk.specs import chain as S
 from vk.specs import universe as U
 from props.C09 import taylor_bound
 
-LEVEL = "exploration"
-TECHNIQUE = ("runtime contracts with theorem-derived bounds (Taylor-4 remainder for propagation-and-compression, exactness of PS / PS2 / VMF at full bond dimension, "
+LEVEL = "other"
+TECHNIQUE = ("Engine S (kernel-stub mode): the tree propagation-and-compression step equals the 4th-order Taylor polynomial of the propagator on every tree shape, for all "
+             "tensor values; runtime contracts with theorem-derived bounds (Taylor-4 remainder for propagation-and-compression, exactness of PS / PS2 / VMF at full bond dimension, "
              "norm and energy conservation of one-site PS at any bond dimension, sector conservation) against scipy expm over enumerated trees; chain consistency on "
              "linear trees (bounded stand-in)")
 TREE_METHODS = ["tdvp_vmf", "prop_and_compress_tdrk4", "tdvp_ps", "tdvp_ps2"]
@@ -328,6 +329,8 @@ def check(run):
         cases.append(("aux", 1, s, run.tier))
         cases.append(("aux", 2, s, run.tier))
     run_cases(run, worker, cases)
+    from props import C12_sym
+    C12_sym.prove(run)
     run.rule = ("random trees with 2..4(5) nodes (shape enumeration, groupings, dummy nodes) x {spin+qn, electron-phonon} x 4 tree schemes x real/imaginary time x |H|t in "
                 "{0.1, 0.5}; 3-step histories; one-site PS at bond limits 1, 2 (norm/energy/limit); linear tree vs chain implementation; purified P x Q trees "
                 "(max_entangled_ex + imaginary time) vs dense Gibbs state; distinct = case x clause")
